@@ -52,7 +52,21 @@ def mktmp(prefix):
 
 
 def cleanup():
+    cov = os.environ.get("VERIF_COV")
     for d in _tmpdirs:
+        if cov and os.path.basename(d).startswith("cstlverif_h_"):
+            # coverage of the library sources by this harness (diagnostic: tools/covmap.py)
+            try:
+                gcda = [f for f in os.listdir(d) if f.endswith(".gcda")]
+                if gcda:
+                    out = os.path.join(cov, os.path.basename(d))
+                    os.makedirs(out, exist_ok=True)
+                    subprocess.run(["gcov", "-b", "-p"] + gcda, cwd=d, stdout=subprocess.DEVNULL, stderr=subprocess.DEVNULL)
+                    for f in os.listdir(d):
+                        if f.endswith(".gcov"):
+                            shutil.move(os.path.join(d, f), os.path.join(out, f))
+            except Exception:
+                pass
         shutil.rmtree(d, ignore_errors=True)
     del _tmpdirs[:]
 
@@ -91,6 +105,8 @@ def build_harness(name, harness_srcs, repo_srcs=None, cflags=None, wrap_alloc=Tr
            "-fno-omit-frame-pointer", "-Wno-unused-function"]
     if sanitize:
         cmd += ["-fsanitize=address"]
+    if os.environ.get("VERIF_COV"):
+        cmd += ["--coverage", "-DVERIF_COVERAGE"]
     for inc in (extra_includes_first or []):
         cmd += ["-I", inc]
     cmd += ["-I", os.path.join(REPO, "include"), "-I", HARNESS]
@@ -107,7 +123,7 @@ def build_harness(name, harness_srcs, repo_srcs=None, cflags=None, wrap_alloc=Tr
     for r, j in zip(rs, jobs):
         if r.returncode != 0:
             raise BuildError("harness compile failed: %s\n%s" % (" ".join(j), r.stdout))
-    link = ["gcc"] + (["-fsanitize=address"] if sanitize else []) + objs + ["-o", exe, "-lm"]
+    link = ["gcc"] + (["-fsanitize=address"] if sanitize else []) + (["--coverage"] if os.environ.get("VERIF_COV") else []) + objs + ["-o", exe, "-lm"]
     if wrap_alloc:
         link.append(WRAP)
     r = sh(link)
